@@ -276,3 +276,102 @@ Proof.
 Qed.
 
 End C8.
+
+Lemma trans_concat : forall n L d L', trans_J n L d L' \/ trans_N n L d L' -> concat L' = concat L ++ [d].
+Proof.
+  intros n L d L' [(L0 & g & -> & -> & _)|[-> _]].
+  - rewrite !cp_concat_snoc, app_assoc. reflexivity.
+  - apply cp_concat_snoc.
+Qed.
+
+Lemma crel_trans : forall n L d L' s, crel n L s -> trans_J n L d L' \/ trans_N n L d L' ->
+  crel n L' (s ++ [schema_sig d]).
+Proof. intros n L d L' s H [HJ|HN]; [apply (crel_J n L d L' s H HJ)|apply (crel_N n L d L' s H HN)]. Qed.
+
+Section C8Run.
+Variable deflate : bytes -> bytes.
+Variable inflate : bytes -> option bytes.
+Hypothesis inflate_deflate : forall p, inflate (deflate p) = Some p.
+
+Lemma c8_add : forall k docs n c w gsw gsp d now, k = KDyn \/ k = KSDyn -> 1 <= n ->
+  env_ok (fun d => In d docs) k -> no_type_only_change k docs ->
+  INV deflate (fun d => In d docs) k n (c, w) gsw gsp -> (gsp = [] -> gsw = []) -> In d docs ->
+  exists c' w' gsw' gsp', c_add deflate c w d now = (c', w', ROk) /\
+    INV deflate (fun d => In d docs) k n (c', w') gsw' gsp' /\
+    gsp' <> [] /\ (trans_J n (gsw ++ gsp) d (gsw' ++ gsp') \/ trans_N n (gsw ++ gsp) d (gsw' ++ gsp')).
+Proof.
+  intros k docs n c w gsw gsp d now [->| ->] Hn Henv Hnt Hinv Hpure Hd.
+  - apply (c8_add_dyn deflate docs n Hn); assumption.
+  - apply (c8_add_sdyn deflate docs n Hn); assumption.
+Qed.
+
+Lemma c8_adds : forall k docs n, k = KDyn \/ k = KSDyn -> 1 <= n ->
+  env_ok (fun d => In d docs) k -> no_type_only_change k docs ->
+  forall rest nows st gsw gsp s, length nows = length rest -> (forall d, In d rest -> In d docs) ->
+  INV deflate (fun d => In d docs) k n st gsw gsp -> (gsp = [] -> gsw = []) -> crel n (gsw ++ gsp) s ->
+  exists st' gsw' gsp', run deflate st (add_ops rest nows) = (st', map (fun _ => BAdd ROk) rest) /\
+    INV deflate (fun d => In d docs) k n st' gsw' gsp' /\ crel n (gsw' ++ gsp') (s ++ map schema_sig rest) /\
+    concat (gsw' ++ gsp') = concat (gsw ++ gsp) ++ rest.
+Proof.
+  intros k docs n Hk Hn Henv Hnt. induction rest as [|d rest IH]; intros nows st gsw gsp s Hlen Hin Hinv Hpure Hcrel.
+  - destruct nows; [|discriminate Hlen]. exists st, gsw, gsp. rewrite !app_nil_r.
+    split; [reflexivity|]. split; [exact Hinv|]. split; [exact Hcrel|reflexivity].
+  - destruct nows as [|now nows]; [discriminate Hlen|]. cbn [length] in Hlen. injection Hlen as Hlen.
+    destruct st as [c w].
+    destruct (c8_add k docs n c w gsw gsp d now Hk Hn Henv Hnt Hinv Hpure (Hin d (or_introl eq_refl)))
+      as (c1 & w1 & gsw1 & gsp1 & Hadd & Hinv1 & Hne1 & Htr).
+    destruct (IH nows (c1, w1) gsw1 gsp1 (s ++ [schema_sig d]) Hlen) as (st' & gsw' & gsp' & Hrun & Hinv' & Hcrel' & Hcat').
+    + intros x Hx. apply Hin. right. exact Hx.
+    + exact Hinv1.
+    + intros E. congruence.
+    + apply (crel_trans n _ d _ s Hcrel Htr).
+    + exists st', gsw', gsp'. unfold add_ops. cbn [combine map fst snd]. fold (add_ops rest nows).
+      rewrite (run_cons_add deflate _ _ _ _ _ _ _ _ Hadd), Hrun.
+      split; [reflexivity|]. split; [exact Hinv'|]. rewrite <- app_assoc in Hcrel'. split; [exact Hcrel'|].
+      rewrite Hcat', (trans_concat n _ d _ Htr), <- app_assoc. reflexivity.
+Qed.
+
+Theorem c08_dynamic : forall k n docs nows, k = KDyn \/ k = KSDyn -> 1 <= n < 2 ^ 31 ->
+  length nows = length docs -> docs_ok k docs ->
+  let res := emit deflate k n docs nows in
+  snd res = map (fun _ => BAdd ROk) docs ++ [BFlush true] /\
+  exists d, decode_ftdc inflate None (emitted (snd (fst res))) = Some d /\ c08_ok n docs true d = true.
+Proof.
+  intros k n docs nows Hk Hn Hlen (Hwf & Hdist & Hnt) res. subst res.
+  assert (Hkc : compressing k = true) by (destruct Hk as [->| ->]; reflexivity).
+  assert (Henv : env_ok (fun d => In d docs) k).
+  { split; [|exact Hdist]. intros d Hd. rewrite Forall_forall in Hwf. apply Hwf. exact Hd. }
+  destruct (c8_adds k docs n Hk ltac:(lia) Henv Hnt docs nows _ [] [] [] Hlen (fun d H => H)
+              (inv_init deflate _ k n Hkc ltac:(lia)) (fun _ => eq_refl) (crel_nil n))
+    as ([c1 w1] & gsw & gsp & Hrun & Hinv & Hcrel & Hcat).
+  cbn [app concat] in Hcrel, Hcat.
+  destruct (inv_flush deflate _ k n c1 w1 gsw gsp Henv ltac:(lia) Hinv) as (c2 & w2 & Hfl & Hinv2 & _).
+  unfold emit. rewrite run_app, Hrun. cbn [run step]. rewrite Hfl. cbn [fst snd].
+  split; [reflexivity|].
+  destruct (inv_check deflate inflate inflate_deflate _ k n (c2, w2) _ _ Hkc Henv Hn Hinv2)
+    as (wd & rd & Hdw & _ & Hwdocs & _ & Hwsz & _).
+  cbn [snd] in Hdw. exists wd. split; [exact Hdw|].
+  unfold c08_ok. rewrite Hwdocs, Hcat, cb_docs_eqb_refl, Hwsz.
+  rewrite <- (crel_final n _ _ Hcrel), <- (expected_sizes_csz n docs ltac:(lia)).
+  destruct (list_eq_dec Z.eq_dec (expected_sizes n docs) (expected_sizes n docs)); [reflexivity|congruence].
+Qed.
+
+End C8Run.
+
+(* the statement with the full signature in place of the key string is false of the
+   dynamic collector: a timestamp and an int64 under one key have one key string
+   and different metric counts *)
+Theorem c08_dyn_count_refuted :
+  let deflate := (fun p : bytes => 1%N :: p) in
+  let docs := [[([97]%N, VInt64 1)]; [([97]%N, VTimestamp 0 5)]] in
+  Forall doc_wf docs /\ distinguishable KDyn (fun d => In d docs) /\
+  (forall a b, In a docs -> In b docs -> schema_sig a = schema_sig b ->
+               map fst (flatten_doc a) = map fst (flatten_doc b)) /\
+  snd (emit deflate KDyn 5 docs [0; 0]) = [BAdd ROk; BAdd RCount; BFlush true].
+Proof.
+  cbv zeta. split; [|split; [|split]].
+  - repeat constructor; try (unfold small; vm_compute; reflexivity).
+  - intros a b [<-|[<-|[]]] [<-|[<-|[]]] Ht _; try reflexivity; vm_compute in Ht; discriminate Ht.
+  - intros a b [<-|[<-|[]]] [<-|[<-|[]]] Hs; try reflexivity; vm_compute in Hs; discriminate Hs.
+  - vm_compute. reflexivity.
+Qed.
